@@ -325,6 +325,16 @@ func (s *Scanner) isInsideMultiLineAnnotation() bool {
 }
 
 func (s *Scanner) found(lexType lexeme.LexEventType) {
+	if s.annotation == annotationNone {
+		switch lexType { //nolint:exhaustive // Only these matter.
+		case lexeme.NewLine, lexeme.ObjectKeyBegin, lexeme.KeyShortcutBegin, lexeme.LiteralBegin,
+			lexeme.ObjectBegin, lexeme.ArrayBegin, lexeme.MixedValueBegin:
+			// "No annotation after a non-empty array" is about what directly
+			// follows its closing bracket on that line: a new line or a new
+			// key or value may carry an annotation again.
+			s.allowAnnotation = true
+		}
+	}
 	s.finds = append(s.finds, lexType)
 }
 
